@@ -53,6 +53,10 @@ def blocks(tier, seed):
     for shape in ([5], [3, 3], [4, 4], [2, 2, 2], [3, 3, 3]):
         out.append({"gridseq": True, "shape": shape})
     out.append({"samegrid": True})
+    # fields with many cells (beyond 1024 / 4096, odd and even sizes, not powers of two): fixed catalogue, reduced shift menu
+    for shape in ([40, 36], [33, 35], [12, 10, 9], [2050], [64, 65], [17, 16, 17]):
+        for name in CATALOGUE:
+            out.append({"large": True, "shape": shape, "field": name})
     if tier == "thorough":
         for shape in [(3, 3), (6,), (7,), (2, 4), (4, 2)]:
             add(shape, A, "base")
@@ -64,7 +68,28 @@ def blocks(tier, seed):
 SEQ_SPACINGS = {1: [[1.0], [0.5], [1.6]], 2: [[1.0, 1.0], [0.5, 2.0], [2.0, 0.5], [1.6, 1.0], [3.0, 3.0]], 3: [[1.0, 1.0, 1.0], [1.0, 2.0, 0.5], [0.5, 1.0, 2.0], [2.0, 2.0, 2.0]]}
 
 
+CATALOGUE = ["lattice-hash", "two-blobs", "oblique-wave"]
+
+
+def catalogue_field(name, shape):
+    idx = np.indices(shape)
+    if name == "lattice-hash":  # fixed pseudo-irregular values without any mirror symmetry
+        s_ = sum((k + 2) * i for k, i in enumerate(idx))
+        return (((s_ * 37 + sum((k + 1) * i * i for k, i in enumerate(idx)) * 11) % 23) / 11.0) - 0.8
+    if name == "two-blobs":
+        c1 = [0.3 * n for n in shape]
+        c2 = [0.72 * n for n in shape]
+        r1 = sum((i - c) ** 2 for i, c in zip(idx, c1))
+        r2 = sum((1.0 + 0.5 * k) * (i - c) ** 2 for k, (i, c) in enumerate(zip(idx, c2)))
+        return (r1 < (0.18 * min(shape)) ** 2).astype(float) + 0.5 * (r2 < (0.12 * min(shape)) ** 2)
+    ph = sum(2 * np.pi * (k + 1) * (1 if k % 2 == 0 else -2) * i / n for k, (i, n) in enumerate(zip(idx, shape)))
+    return 0.3 + np.sin(ph) + 0.25 * np.cos(2 * np.pi * 3 * idx[0] / shape[0])
+
+
 def cases(block):
+    if block.get("large"):
+        yield {"shape": block["shape"], "catalogue": block["field"]}
+        return
     if block.get("samegrid"):
         # ONE grid object, several different fields analysed on it one after the other (fresh fork)
         for shape, dx in (([4, 4], [0.5, 2.0]), ([3, 5], [1.0, 1.0]), ([2, 3, 2], [1.0, 2.0, 0.5]), ([6], [1.6])):
@@ -199,8 +224,13 @@ def run_case(case, ctx):
     if "gridseq" in case:
         return run_gridseq(case, ctx)
 
-    shape, alph = tuple(case["shape"]), case["alph"]
-    f = np.array([alph[i] for i in case["cells"]], float).reshape(shape)
+    if "catalogue" in case:
+        shape = tuple(case["shape"])
+        f = np.asarray(catalogue_field(case["catalogue"], shape), float)
+        ctx.count("fields-with-more-than-1024-cells")
+    else:
+        shape, alph = tuple(case["shape"]), case["alph"]
+        f = np.array([alph[i] for i in case["cells"]], float).reshape(shape)
     dim = len(shape)
     nontrivial = np.ptp(f) > 0
     if nontrivial:
@@ -253,7 +283,11 @@ def run_case(case, ctx):
         ctx.check("C16.scale", bool(np.allclose(Sc, S, rtol=0, atol=1e-12)), {"c": c, "maxdiff": float(np.max(np.abs(Sc - S)))})
 
     # all cyclic shifts
-    for sh in itertools.product(*[range(n) for n in shape]):
+    if "catalogue" in case:  # reduced, fixed menu of shifts for the large fields
+        shifts = [tuple(1 if a == b else 0 for a in range(dim)) for b in range(dim)] + [tuple(n // 2 for n in shape), tuple((3 + 2 * a) % n for a, n in enumerate(shape)), tuple(n - 1 for n in shape)]
+    else:
+        shifts = itertools.product(*[range(n) for n in shape])
+    for sh in shifts:
         if not any(sh):
             continue
         fs = np.roll(f, sh, axis=tuple(range(dim)))
@@ -355,4 +389,4 @@ def run_case(case, ctx):
 
 def expected_positive(tier):
     return ["C16.nonneg", "C16.parseval", "C16.dft-definition", "C16.k-grid", "C16.k-scaling", "C16.scale", "C16.shift", "C16.reflect",
-            "C16.reflect-multiset", "C16.permute", "C16.add-zero", "C16.smooth-k", "C16.smooth-invariance", "C16.input-unmodified", "non-constant-field", "grid-sequences", "same-grid-object-sequences", "requests-starting-at-zero", "other-request-forms"]
+            "C16.reflect-multiset", "C16.permute", "C16.add-zero", "C16.smooth-k", "C16.smooth-invariance", "C16.input-unmodified", "non-constant-field", "grid-sequences", "same-grid-object-sequences", "requests-starting-at-zero", "other-request-forms", "fields-with-more-than-1024-cells"]
